@@ -7,8 +7,8 @@
    (LAPACK dgetrf: P B = L U with unit lower-triangular L, so |det B| = prod |U_ii|; B is positive definite). *)
 From Coq Require Import Reals.
 From mathcomp Require Import all_ssreflect all_fingroup all_algebra.
-From Coq Require Import ZArith.
-From TJ Require Import Base.Rstruct Base.Imp Base.Fops Gen.KernelPyx Proofs.KernelChar Proofs.KernelBridge Proofs.KernelLoops Proofs.KernelPrelude Proofs.KernelBridge2 Proofs.RealGauss Proofs.RealKernel.
+From Coq Require Import ZArith List.
+From TJ Require Import Base.Rstruct Base.Imp Base.Fops Gen.KernelPyx Proofs.KernelChar Proofs.KernelBridge Proofs.KernelLoops Proofs.KernelPrelude Proofs.KernelBridge2 Proofs.RealGauss Proofs.RealKernel Gen.BatchTasksGen Model.BatchSpec Model.Sched Proofs.SchedProofs Proofs.KernelSched Proofs.RealSched.
 Set Implicit Arguments. Unset Strict Implicit. Unset Printing Implicit Defensive.
 Import GRing.Theory.
 Local Open Scope ring_scope.
@@ -29,10 +29,31 @@ Theorem C01_real_value (pw : R -> R) (inf : R) (orc : oracles R) (nt nl : nat) (
     snd (k_marginal_one fo orc (Z.of_nat nt) (Z.of_nat nl) fk sK0 P0 mK t0 row s) = gauss_ln B Bi r.
 Proof. exact (@marginal_one_real pw inf orc nt nl fk sK0 P0 mK t0 row s Y U). Qed.
 
+(* C01 and C05 together: what TheJoker.marginal_ln_likelihood's cache-file path returns for a library -- cut into batches by the
+   generated batch_tasks for any n_batches >= 1, evaluated by any pool of configuration-equal helper copies under EVERY complete
+   schedule -- is, row by row in library order, the Gaussian log-density ln N(y | M mu, B_row) of that row (is_gauss), given the
+   oracle contracts of C01_real_value for each row (row_ok). *)
+Theorem C01_C05_real_every_schedule (pw : R -> R) (inf : R) (orc : oracles R) (nt nl : nat) (fk : Z) (sK0 P0 mK t0 : R)
+    (w0 : kst (F := R)) (rows : list (arr1 R)) (n_batches : Z) (ws : list (kst (F := R))) (sch : list (nat * nat)) :
+  let fo := mc_fops ln PI pw Rmin Rabs inf in
+  let batches := map (task_rows rows) (batch_tasks_gen (Z.of_nat (length rows)) n_batches 0 true) in
+  (forall row s, exists Y U, o_inv orc nl (Atmp_arg fo nt nl (pre fo orc nt fk sK0 P0 mK t0 row s)) = Some Y /\
+                             o_lu orc nt (Btmp_arg fo nt nl (pre fo orc nt fk sK0 P0 mK t0 row s)) = Some U) ->
+  oracles_local orc ->
+  rows <> nil -> (1 <= n_batches)%Z -> Forall (cfg_eq nt fk w0) ws -> complete (length batches) (length ws) sch ->
+  (forall row, In row rows -> row_ok pw inf orc nt nl fk sK0 P0 mK t0 w0 row) ->
+  exists vals : list R,
+    pool_map (kst (F := R)) (list (arr1 R)) (list R) (step_batch fo orc nt nl fk sK0 P0 mK t0) batches ws sch
+      = map (fun b => Some (map (value fo orc nt nl fk sK0 P0 mK t0 w0) b)) batches /\
+    concat (map (map (value fo orc nt nl fk sK0 P0 mK t0 w0)) batches) = vals /\
+    Forall2 (is_gauss pw inf orc nt nl fk sK0 P0 mK t0 w0) rows vals.
+Proof. exact (@file_path_real_every_schedule pw inf orc nt nl fk sK0 P0 mK t0 w0 rows n_batches ws sch). Qed.
+
 (* gauss_ln is the Gaussian log-density written with the quadratic form of the inverse *)
 Theorem C01_gauss_ln_def (n : nat) (S Si : 'M[R]_n) (r : 'cV[R]_n) :
   gauss_ln S Si r = Ropp (Rdiv 1 2) * ((r^T *m Si *m r) ord0 ord0 + INR n * ln (Rmult 2 PI) + ln (\det S)).
 Proof. reflexivity. Qed.
 
 Print Assumptions C01_real_value.
+Print Assumptions C01_C05_real_every_schedule.
 Print Assumptions C01_gauss_ln_def.
